@@ -23,6 +23,7 @@ DECIDES = (
     "(C13.WHO-WRITES-POINTS); every normal exit of optimize passes backport() (C13.BACKPORT); the warnings filter installed by "
     "CellBase.quality is released on every exit (C13.WARNING-FILTER)."
     ' lengths in the optimisation package are taken of vectors, not positions (C13.AFFINE-KINDS); link transforms as linear forms (C13.LINK-RELATION = C17.LINK-ALGEBRA).'
+    ' Clamp and link constructors keep private copies of the coordinates they capture (C13.OWNS-GEOMETRY); the angle handed to functions.rotate is dimensionless (C13.ANGLE-DIMENSION).'
 )
 NOT_DECIDED = "'never worsens', constraint satisfaction and bounds: numerical minimisation."
 ASSUMPTIONS = ["copy.copy / np.copy / np.array / list() of clamp.params is a snapshot independent of later update_params calls"]
